@@ -70,7 +70,7 @@ def _one(sc, r):
     if meta["dispersive"]:
         dtn = 0.99 * 50e-9 / (np.sqrt(3.0) * 299792458.0)
         ilo, ihi = scenes.interior_box(scene)
-        pole = [{"kind": "lorentz", "w0": 0.3 / dtn, "gamma": 0.05 / dtn, "deps": 1.0}, {"kind": "drude", "wp": 0.1 / dtn, "gamma": 0.02 / dtn}][int(rng.integers(2))]
+        pole = [{"kind": "lorentz", "w0": 0.9 / dtn, "gamma": 0.05 / dtn, "deps": 1.0}, {"kind": "drude", "wp": 0.1 / dtn, "gamma": 0.02 / dtn}][int(rng.integers(2))]
         scene["materials"].append({"lo": [h - 2 for h in ihi], "hi": list(ihi), "mat": {"eps": 2.0, "dispersion": {"poles": [pole]}}, "order": 5})
     for s in scene["sources"]:
         s["factor"] = 1.0
@@ -110,11 +110,15 @@ def _one(sc, r):
         r.branch("det:" + k)
     wit = {"case": sc, "meta": meta, "factors": factors, "common": common}
 
-    def close(name, got, terms, rel, sig):
+    def close(name, got, terms, rel, sig, atol=0.0):
         want = sum(terms)
         scale = max([float(np.abs(t).max()) for t in terms] + [0.0])
         err = float(np.abs(got - want).max())
         r.count("comparisons")
+        if err <= atol:
+            # a record that is itself only the round-off residue of cancelling products (see flux_floor below)
+            r.ok(None)
+            return
         relerr = err / scale if scale > 0 else (0.0 if err == 0 else float("inf"))
         r.worst("worst_rel_err_" + rel, relerr)
         if relerr <= 1e-9:
@@ -135,7 +139,15 @@ def _one(sc, r):
         if name in lin:
             close(k, D_sc[k], [common * D_all[k]], "scaling", sig)
         elif name in quad:
-            close(k, D_sc[k], [common**2 * D_all[k]], "quadratic_scaling", ("quadratic",) + base_sig)
+            # a Poynting flux is a sum of products E_i*H_j of both signs: it is only defined up to the round-off of its
+            # largest term. Records far below 1e-10 of (max|E| max|H| area) are cancellation residue (seen: 6e-51 from
+            # fields of 1e-17 scaling by -4 instead of 9) and carry no information about the relation.
+            dd = scene["detectors"][int(name[3:])]
+            flux_floor = 0.0
+            if dd["kind"] == "poynting":
+                ncell = int(np.prod([h - l for l, h in zip(dd["lo"], dd["hi"])]))
+                flux_floor = 1e-10 * common**2 * float(np.abs(E_all).max()) * float(np.abs(H_all).max()) * ncell * (2 * 50e-9) ** 2
+            close(k, D_sc[k], [common**2 * D_all[k]], "quadratic_scaling", ("quadratic",) + base_sig, atol=flux_floor)
 
     # ---- initial state: stepped with forward(), detectors recording --------------------------------
     arrays = b_all["arrays"]
